@@ -150,6 +150,59 @@ def fn(name, p):
     return {((("fn", name, _key(p)), Fraction(1)),): Fraction(1)}
 
 
+def absval(p, positive=(), sign=False):
+    """abs(p) (or sign(p)) with the sound identities  abs(c*q) = |c|*abs(q),  abs(q*b) = abs(q)*b and
+    abs(q/b) = abs(q)/b for symbols b assumed > 0,  abs(-q) = abs(q):  the numeric content and the
+    positive symbols common to all terms are pulled out, the rest stays inside one opaque atom."""
+    if not p:
+        return {}
+    lead, cm, prim = _content(p)
+    pos = tuple((a, e) for a, e in cm if isinstance(a, str) and a in positive)
+    rest = tuple((a, e) for a, e in cm if not (isinstance(a, str) and a in positive))
+    inner = mul(prim, {tuple(sorted(rest, key=repr)): Fraction(1)}) if rest else prim
+    c = as_const(inner)
+    if sign:
+        outer = const(1 if lead > 0 else -1)
+        return outer if c is not None else mul(outer, fn("sign", inner))
+    outer = {tuple(sorted(pos, key=repr)): abs(lead)}
+    if c is not None:
+        return mul(outer, const(abs(c)))
+    return mul(outer, fn("abs", inner))
+
+
+INJECTIVE_FUNCS = {"exp", "log"}
+
+
+def opaque_functions(p):
+    """names of the opaque function atoms occurring anywhere in a normal form"""
+    out = set()
+
+    def atom(a):
+        if isinstance(a, tuple):
+            if a[0] == "fn":
+                out.add(a[1])
+                poly(dict(a[2]))
+            elif a[0] == "sum":
+                poly(dict(a[1]))
+            elif a[0] == "pow":
+                poly(dict(a[1]))
+                poly(dict(a[2]))
+
+    def poly(q):
+        for m, _ in q.items():
+            for a, _e in m:
+                atom(a)
+    poly(p)
+    return out
+
+
+def definitely_different(p, q):
+    """Two different normal forms denote different functions only when every opaque function in them is
+    injective and compared on canonical arguments (exp, log); with abs/sign/sqrt/trigonometric atoms
+    further identities exist that the normal form does not know, so the comparison is undecided."""
+    return p != q and not ((opaque_functions(p) | opaque_functions(q)) - INJECTIVE_FUNCS)
+
+
 def show(p):
     """Readable rendering of a normal form."""
     if not p:
@@ -208,8 +261,9 @@ class Normaliser:
     """symbols: dict text -> symbol name for parameters / attributes
     (e.g. {'X': 'X', 'lscale': 'L', 'self.length_scale': 'L'})."""
 
-    def __init__(self, symbols):
+    def __init__(self, symbols, positive=()):
         self.symbols = dict(symbols)
+        self.positive = tuple(positive)  # symbol names assumed > 0 (length scales, alpha)
         self.env = {}
 
     def expr(self, e):
@@ -262,6 +316,10 @@ class Normaliser:
             raise NotComparable(pf.src(e))
         if isinstance(e, ast.Call):
             cn = pf.call_name(e)
+            if cn in ("np.abs", "np.fabs", "np.absolute", "numpy.abs", "abs") and len(e.args) == 1 and not e.keywords:
+                return absval(self.expr(e.args[0]), self.positive)
+            if cn in ("np.sign", "numpy.sign") and len(e.args) == 1 and not e.keywords:
+                return absval(self.expr(e.args[0]), self.positive, sign=True)
             if cn in FUNCS and len(e.args) == 1 and not e.keywords:
                 return fn(FUNCS[cn], self.expr(e.args[0]))
             if cn in ("np.square", "numpy.square") and len(e.args) == 1:
@@ -290,9 +348,9 @@ class Normaliser:
                 else:
                     self.env[st.target.id] = NotComparable("augmented %s" % pf.src(st))
             elif isinstance(st, ast.If):
-                a = Normaliser(self.symbols)
+                a = Normaliser(self.symbols, self.positive)
                 a.env = dict(self.env)
-                b = Normaliser(self.symbols)
+                b = Normaliser(self.symbols, self.positive)
                 b.env = dict(self.env)
                 ra = a.run(st.body)
                 rb = b.run(st.orelse)
